@@ -1,6 +1,8 @@
 // Copyright (c) Microsoft Corporation
 // SPDX-License-Identifier: MIT
 mod ebpf_obj;
+#[cfg(gpa_verif)]
+pub mod verif_standin;
 
 use crate::common::{
     config, constants,
@@ -429,6 +431,13 @@ pub async fn update_wire_server_redirect_policy(
     redirect: bool,
     redirector_shared_state: RedirectorSharedState,
 ) {
+    #[cfg(gpa_verif)]
+    verif_standin::record_policy(
+        "wireserver",
+        constants::WIRE_SERVER_IP_NETWORK_BYTE_ORDER,
+        constants::WIRE_SERVER_PORT,
+        redirect,
+    );
     if let (Ok(Some(bpf_object)), Ok(local_port)) = (
         redirector_shared_state.get_bpf_object().await,
         redirector_shared_state.get_local_port().await,
@@ -446,6 +455,13 @@ pub async fn update_imds_redirect_policy(
     redirect: bool,
     redirector_shared_state: RedirectorSharedState,
 ) {
+    #[cfg(gpa_verif)]
+    verif_standin::record_policy(
+        "imds",
+        constants::IMDS_IP_NETWORK_BYTE_ORDER,
+        constants::IMDS_PORT,
+        redirect,
+    );
     if let (Ok(Some(bpf_object)), Ok(local_port)) = (
         redirector_shared_state.get_bpf_object().await,
         redirector_shared_state.get_local_port().await,
@@ -463,6 +479,13 @@ pub async fn update_hostga_redirect_policy(
     redirect: bool,
     redirector_shared_state: RedirectorSharedState,
 ) {
+    #[cfg(gpa_verif)]
+    verif_standin::record_policy(
+        "hostga",
+        constants::GA_PLUGIN_IP_NETWORK_BYTE_ORDER,
+        constants::GA_PLUGIN_PORT,
+        redirect,
+    );
     if let (Ok(Some(bpf_object)), Ok(local_port)) = (
         redirector_shared_state.get_bpf_object().await,
         redirector_shared_state.get_local_port().await,
